@@ -1,14 +1,13 @@
 import AcraModel.Envelope.Masking
 import AcraModel.Envelope.MaskLemmas
-import AcraModel.Envelope.ExampleOps
-import AcraModel.Crypto.Box
+import AcraModel.Props.C01
 /-!
 # C11 — masked columns show only the allowed window to clients that cannot decrypt
 
 Property theorems only. Model: `AcraModel/Envelope/Masking.lean` (on top of the detector model).
 -/
 namespace AcraModel.Props.C11
-open AcraModel AcraModel.Envelope
+open AcraModel AcraModel.Envelope AcraModel.Props.C01
 
 /-- **Values not longer than the window are protected in full**: when the configured clear window
 would cover the whole value, the whole value goes through `protect` – nothing stays in clear. -/
@@ -65,6 +64,8 @@ AcraStructs/AcraBlocks – the only place where `"` matters – do not run. The 
 `maskRead_owner` / `maskRead_other` / `maskRead_nonOwner` in `Envelope/MaskLemmas.lean` are stated
 with the `%` half only.) -/
 def cleanWindow (w : Bytes) : Prop := ∀ x ∈ w, x ≠ 37 ∧ x ≠ 34
+
+instance (w : Bytes) : Decidable (cleanWindow w) := inferInstanceAs (Decidable (∀ x ∈ w, x ≠ 37 ∧ x ≠ 34))
 
 theorem cleanWindow_noPct {w : Bytes} (h : cleanWindow w) : ∀ x ∈ w, x ≠ 37 := fun x hx => (h x hx).1
 
@@ -136,6 +137,37 @@ theorem mask_other (c : CryptoOps) (kvW kvR : KeyView) (cfg : MaskCfg) (v rnd p 
     (hw : maskWrite c kvW cfg v rnd = .ok stored) :
     maskRead c kvR cfg stored = .ok (joinSides cfg (windowPart cfg v) cfg.pattern) true :=
   maskRead_nonOwner c kvW kvR cfg v rnd p stored hpat (cleanWindow_noPct hclean) h hw
+
+/-- A reader whose key store holds no keys at all is a non-owner, whatever the crypto back end: it
+receives window and pattern (no assumption about the cryptography is needed for confidentiality
+towards a key-less reader – the bytes it gets do not depend on the container). -/
+theorem mask_other_no_keys (c : CryptoOps) (kvW kvR : KeyView) (cfg : MaskCfg) (v rnd p stored : Bytes)
+    (hpat : cfg.pattern ≠ []) (hclean : cleanWindow (windowPart cfg v))
+    (hnm : matchKind cfg.kind (hiddenPart cfg v) = false) (hnr : registryMatch (hiddenPart cfg v) = false)
+    (hp : protect c kvW cfg.kind (hiddenPart cfg v) rnd = .ok p) (hplen : p.length < 2^63)
+    (hpc : cfg.pattern.length ≤ 12 ∨ cfg.pattern ≠ p ++ afterContainer cfg (windowPart cfg v))
+    (hR : kvR.privs = none ∧ kvR.syms = none)
+    (hw : maskWrite c kvW cfg v rnd = .ok stored) :
+    maskRead c kvR cfg stored = .ok (joinSides cfg (windowPart cfg v) cfg.pattern) true :=
+  mask_other c kvW kvR cfg v rnd p stored hpat hclean
+    (nonOwner_of_no_keys c kvW kvR cfg v rnd p hnm hnr hp hplen hpc hR) hw
+
+/-- Under key commitment (`SealLaws` + `SealCommit`; deliberately no length law, see `Crypto/Ops.lean`)
+a reader who has symmetric keys, but not the writer's, is a non-owner of an AcraBlock-masked value:
+"other keys fail" is a theorem here, not a hypothesis. -/
+theorem mask_other_commit (c : CryptoOps) (hs : SealLaws c) (hcm : SealCommit c) (kvW kvR : KeyView) (cfg : MaskCfg)
+    (v rnd p stored key : Bytes) (hkind : cfg.kind = .block)
+    (hpat : cfg.pattern ≠ []) (hclean : cleanWindow (windowPart cfg v))
+    (hW : kvW.sym = some key) (hkid : (keyId c key []).length = 2)
+    (hEncKey : ∀ encKey, c.enc key [] (rnd.take 32) ((rnd.drop 44).take 12) = some encKey → encKey.length < 65536)
+    (hnm : matchKind cfg.kind (hiddenPart cfg v) = false) (hnr : registryMatch (hiddenPart cfg v) = false)
+    (hp : protect c kvW cfg.kind (hiddenPart cfg v) rnd = .ok p) (hplen : p.length < 2^63)
+    (hpc : cfg.pattern.length ≤ 12 ∨ cfg.pattern ≠ p ++ afterContainer cfg (windowPart cfg v))
+    (hdisj : ∀ ks, kvR.syms = some ks → key ∉ ks)
+    (hw : maskWrite c kvW cfg v rnd = .ok stored) :
+    maskRead c kvR cfg stored = .ok (joinSides cfg (windowPart cfg v) cfg.pattern) true :=
+  mask_other c kvW kvR cfg v rnd p stored hpat hclean
+    (nonOwner_of_commit c hs hcm kvW kvR cfg v rnd p key hkind hW hkid hEncKey hnm hnr hp hplen hpc hdisj) hw
 
 /-- Left window, value longer than the window: the non-owner receives the first `k` bytes followed by
 the pattern. -/
@@ -224,5 +256,188 @@ processor ever returns an error to the column scan. -/
 theorem maskRead_never_fatal :
     ∀ (c : CryptoOps) (kv : KeyView) (cfg : MaskCfg) (d : Bytes), maskRead c kv cfg d ≠ .fatal :=
   maskRead_ne_fatal
+
+/-! ## 6. non-vacuity: every hypothesis bundle above is met by a concrete instance -/
+
+/-- LEFT window, AcraBlock kind, stand-in back end: "hello!" with a clear window of 2 bytes and pattern
+`***`; written with key `[1,2,3]`; the owner reads with the rotated key list `[[4,5],[1,2,3],[1,2,9]]`
+and gets `hello!`; a reader without keys gets `he***`. -/
+example :
+    let cfg : MaskCfg := ⟨[42,42,42], 2, true, .block⟩
+    let v : Bytes := [104,101,108,108,111,33]
+    let kvW : KeyView := ⟨none, none, some [1,2,3], none⟩
+    let kvR : KeyView := ⟨none, none, some [4,5], some ([[4,5]] ++ [1,2,3] :: [[1,2,9]])⟩
+    let kvN : KeyView := ⟨none, none, none, none⟩
+    ∃ stored, maskWrite toyOps kvW cfg v (List.replicate 56 5) = .ok stored ∧
+      maskRead toyOps kvR cfg stored = .ok v true ∧
+      maskRead toyOps kvN cfg stored = .ok [104,101,42,42,42] true := by
+  intro cfg v kvW kvR kvN
+  have hs := toy_sealLaws
+  have hsl := toy_sealLen
+  have hkid := keyId_length toyOps toy_hashLen [1,2,3] []
+  have hhid : hiddenPart cfg v = [108,108,111,33] := by decide
+  have hwin : windowPart cfg v = [104,101] := by decide
+  have hnm : matchKind cfg.kind (hiddenPart cfg v) = false := by rw [hhid]; decide
+  have hnr : registryMatch (hiddenPart cfg v) = false := by rw [hhid]; decide
+  obtain ⟨p, hp⟩ := protect_block_total toyOps hs kvW [1,2,3] (hiddenPart cfg v) (List.replicate 56 5) rfl (by decide)
+    (by rw [hhid]; decide) (by rw [hhid]; decide) (by decide)
+  obtain ⟨hpl, _⟩ := protect_block_length toyOps hs hsl kvW [1,2,3] _ _ p rfl hkid hnm hnr hp
+  have hpl' : p.length = 154 := by rw [hpl, hhid]; rfl
+  have hw : maskWrite toyOps kvW cfg v (List.replicate 56 5) = .ok (joinSides cfg (windowPart cfg v) p) := by
+    rw [maskWrite_eq toyOps kvW cfg v _ (by decide), hp]; rfl
+  have hclean : cleanWindow (windowPart cfg v) := by rw [hwin]; decide
+  refine ⟨_, hw, ?_, ?_⟩
+  · refine mask_owner toyOps kvW kvR cfg v _ _ (by decide) hclean hnm hnr ?_ hw
+    intro p' hp'
+    rw [hp] at hp'; cases hp'
+    refine ⟨⟨hs, [1,2,3], [[4,5]], [[1,2,9]], hkid, rfl, rfl, ?_, ?_, by rw [hpl']; decide⟩, ?_⟩
+    · intro k' hk' encKey _ hid
+      simp only [List.mem_singleton] at hk'
+      subst hk'
+      exact absurd hid (by decide)
+    · intro ek h
+      rw [hsl.enc_len _ _ _ _ _ h]; decide
+    · intro h
+      have := congrArg List.length h
+      rw [List.length_append, hpl', hhid] at this
+      simp at this
+      omega
+  · have := mask_other toyOps kvW kvN cfg v _ p _ (by decide) hclean
+      (nonOwner_of_no_keys toyOps kvW kvN cfg v _ p hnm hnr hp (by rw [hpl']; decide) (Or.inl (by decide)) ⟨rfl, rfl⟩) hw
+    rw [this, hwin]
+    rfl
+/-- RIGHT window, AcraStruct kind, executable stand-in back end (`H` = SHA-256): seven bytes with a clear
+window of the last 3 and pattern `*`; the owner (matching private key first in the list, another key
+after it) reads the value back; a reader without keys gets `*` followed by the window. -/
+example :
+    let priv := shimOps.privOfSeed (List.replicate 32 1)
+    let other := shimOps.privOfSeed (List.replicate 32 2)
+    let cfg : MaskCfg := ⟨[42], 3, false, .struct⟩
+    let v : Bytes := [1,2,3,4,5,6,7]
+    let kvW : KeyView := ⟨some (shimOps.pubOf priv), none, none, none⟩
+    let kvR : KeyView := ⟨none, some ([] ++ priv :: [other]), none, none⟩
+    let kvN : KeyView := ⟨none, none, none, none⟩
+    ∃ stored, maskWrite shimOps kvW cfg v (List.replicate 88 7) = .ok stored ∧
+      maskRead shimOps kvR cfg stored = .ok v true ∧
+      maskRead shimOps kvN cfg stored = .ok [42,5,6,7] true := by
+  intro priv other cfg v kvW kvR kvN
+  have hpriv : shimOps.validPriv priv = true := shim_keygenLaws.valid_seed _ (by decide)
+  have hhid : hiddenPart cfg v = [1,2,3,4] := by decide
+  have hwin : windowPart cfg v = [5,6,7] := by decide
+  have hnm : matchKind cfg.kind (hiddenPart cfg v) = false := by rw [hhid]; decide
+  have hnr : registryMatch (hiddenPart cfg v) = false := by rw [hhid]; decide
+  obtain ⟨p, hp⟩ := protect_struct_total shimOps shim_sealLaws shim_msgLaws shim_keygenLaws kvW priv (hiddenPart cfg v)
+    (List.replicate 88 7) hpriv rfl (by rw [hhid]; decide) (by rw [hhid]; decide) (by decide)
+  obtain ⟨hpl, _⟩ := protect_struct_length shimOps shim_sealLaws shim_sealLen shim_msgLen shim_keygenLaws kvW _ _ p hnm hnr hp
+  have hpl' : p.length = 205 := by rw [hpl, hhid]; rfl
+  have hw : maskWrite shimOps kvW cfg v (List.replicate 88 7) = .ok (joinSides cfg (windowPart cfg v) p) := by
+    rw [maskWrite_eq shimOps kvW cfg v _ (by decide), hp]; rfl
+  have hclean : cleanWindow (windowPart cfg v) := by rw [hwin]; decide
+  refine ⟨_, hw, ?_, ?_⟩
+  · refine mask_owner shimOps kvW kvR cfg v _ _ (by decide) hclean hnm hnr ?_ hw
+    intro p' hp'
+    rw [hp] at hp'; cases hp'
+    refine ⟨⟨shim_sealLaws, shim_sealLen, shim_msgLaws, shim_msgLen, shim_keygenLaws, priv, [], [other], hpriv, rfl, rfl, by simp⟩, ?_⟩
+    intro h
+    have := congrArg List.length h
+    rw [List.length_append, hpl', hhid] at this
+    simp at this
+    omega
+  · have := mask_other shimOps kvW kvN cfg v _ p _ (by decide) hclean
+      (nonOwner_of_no_keys shimOps kvW kvN cfg v _ p hnm hnr hp (by rw [hpl']; decide) (Or.inl (by decide)) ⟨rfl, rfl⟩) hw
+    rw [this, hwin]
+    rfl
+
+/-- Key commitment (`boxOps`: `SealLaws` + `SealCommit`): a reader who HAS keys, but not the writer's, is a
+non-owner (`nonOwner_of_commit`) and sees window and pattern; here the left window `[7]` of `[7,9,9]`. -/
+example :
+    let cfg : MaskCfg := ⟨[42], 1, true, .block⟩
+    let v : Bytes := [7,9,9]
+    let kvW : KeyView := ⟨none, none, some [1,2,3], none⟩
+    let kvO : KeyView := ⟨none, none, some [9,9], some [[9,9],[1,2,4]]⟩
+    ∃ stored, maskWrite boxOps kvW cfg v (List.replicate 56 5) = .ok stored ∧
+      maskRead boxOps kvO cfg stored = .ok [7,42] true := by
+  intro cfg v kvW kvO
+  have hs := Box.sealLaws
+  have hhid : hiddenPart cfg v = [9,9] := by decide
+  have hwin : windowPart cfg v = [7] := by decide
+  have hnm : matchKind cfg.kind (hiddenPart cfg v) = false := by rw [hhid]; decide
+  have hnr : registryMatch (hiddenPart cfg v) = false := by rw [hhid]; decide
+  have hkid : (keyId boxOps [1,2,3] []).length = 2 := by decide
+  have e1 : boxOps.enc ((List.replicate 56 5).take 32) [] [9,9] (((List.replicate 56 (5:UInt8)).drop 32).take 12) =
+      some (Box.esc (List.replicate 32 5) ++ (Box.esc [] ++ (Box.esc (List.replicate 12 5) ++ [9,9]))) := by decide
+  have e2 : boxOps.enc [1,2,3] [] ((List.replicate 56 5).take 32) (((List.replicate 56 (5:UInt8)).drop 44).take 12) =
+      some (Box.esc [1,2,3] ++ (Box.esc [] ++ (Box.esc (List.replicate 12 5) ++ List.replicate 32 5))) := by decide
+  have hek : ∀ encKey, boxOps.enc [1,2,3] [] ((List.replicate 56 5).take 32) (((List.replicate 56 (5:UInt8)).drop 44).take 12) = some encKey →
+      encKey.length < 65536 := by
+    intro encKey h
+    rw [e2] at h
+    cases h
+    decide
+  obtain ⟨p, hp⟩ := protect_block_total boxOps hs kvW [1,2,3] (hiddenPart cfg v) (List.replicate 56 5) rfl (by decide)
+    (by rw [hhid]; decide) (by rw [hhid]; decide) (by decide)
+  have hpl : p.length < 2^63 := by
+    obtain ⟨e, he, _, rfl⟩ := c01_protect_ok hp hnm hnr
+    obtain ⟨key', hk', hcb⟩ := c01_encryptKind_block he hnm
+    cases hk'
+    rw [hhid] at hcb
+    obtain ⟨encData, encKey, h1, h2, rfl⟩ := c01_createBlock_ok hcb
+    rw [e1] at h1; rw [e2] at h2
+    cases h1; cases h2
+    rw [c01_serBytes_length, c01_buildBlock_length _ _ _ hkid]
+    decide
+  have hw : maskWrite boxOps kvW cfg v (List.replicate 56 5) = .ok (joinSides cfg (windowPart cfg v) p) := by
+    rw [maskWrite_eq boxOps kvW cfg v _ (by decide), hp]; rfl
+  refine ⟨_, hw, ?_⟩
+  have := mask_other boxOps kvW kvO cfg v _ p _ (by decide) (by rw [hwin]; decide)
+    (nonOwner_of_commit boxOps hs Box.sealCommit kvW kvO cfg v _ p [1,2,3] rfl rfl hkid hek hnm hnr hp hpl
+      (Or.inl (by decide)) (by intro ks hks; cases hks; decide)) hw
+  rw [this, hwin]
+  rfl
+
+/-- Non-interference and the short case, stand-in back end: `he|llo!` and `he|y` (same window `he`,
+different hidden parts, different writers' randomness) are indistinguishable for a reader without
+keys; the one-byte value `h` (not longer than the window) is shown as the pattern alone. -/
+example :
+    let cfg : MaskCfg := ⟨[42,42,42], 2, true, .block⟩
+    let kvW : KeyView := ⟨none, none, some [1,2,3], none⟩
+    let kvN : KeyView := ⟨none, none, none, none⟩
+    ∃ s₁ s₂ s₃, maskWrite toyOps kvW cfg [104,101,108,108,111,33] (List.replicate 56 5) = .ok s₁ ∧
+      maskWrite toyOps kvW cfg [104,101,121] (List.replicate 56 6) = .ok s₂ ∧
+      maskWrite toyOps kvW cfg [104] (List.replicate 56 7) = .ok s₃ ∧
+      maskRead toyOps kvN cfg s₁ = maskRead toyOps kvN cfg s₂ ∧ maskRead toyOps kvN cfg s₃ = .ok [42,42,42] true := by
+  intro cfg kvW kvN
+  have hs := toy_sealLaws
+  have hsl := toy_sealLen
+  have hkid := keyId_length toyOps toy_hashLen [1,2,3] []
+  have mk : ∀ (v rnd : Bytes), matchKind .block (hiddenPart cfg v) = false → registryMatch (hiddenPart cfg v) = false →
+      hiddenPart cfg v ≠ [] → (hiddenPart cfg v).length < 100 → 56 ≤ rnd.length →
+      ∃ p, NonOwnerHyps toyOps kvW kvN cfg v rnd p ∧
+        maskWrite toyOps kvW cfg v rnd = .ok (joinSides cfg (windowPart cfg v) p) := by
+    intro v rnd hnm hnr hne hlen hr
+    obtain ⟨p, hp⟩ := protect_block_total toyOps hs kvW [1,2,3] (hiddenPart cfg v) rnd rfl (by decide) hne
+      (by have : maxMsgLen = 2^32 := rfl; omega) hr
+    obtain ⟨hpl, _⟩ := protect_block_length toyOps hs hsl kvW [1,2,3] _ _ p rfl hkid hnm hnr hp
+    refine ⟨p, nonOwner_of_no_keys toyOps kvW kvN cfg v rnd p hnm hnr hp (by omega) (Or.inl (by decide)) ⟨rfl, rfl⟩, ?_⟩
+    rw [maskWrite_eq toyOps kvW cfg v _ (by decide), hp]; rfl
+  obtain ⟨p₁, h₁, w₁⟩ := mk [104,101,108,108,111,33] (List.replicate 56 5) (by decide) (by decide) (by decide) (by decide) (by decide)
+  obtain ⟨p₂, h₂, w₂⟩ := mk [104,101,121] (List.replicate 56 6) (by decide) (by decide) (by decide) (by decide) (by decide)
+  obtain ⟨p₃, h₃, w₃⟩ := mk [104] (List.replicate 56 7) (by decide) (by decide) (by decide) (by decide) (by decide)
+  refine ⟨_, _, _, w₁, w₂, w₃, ?_, ?_⟩
+  · exact mask_noninterference toyOps kvN cfg kvW kvW _ _ _ _ p₁ p₂ _ _ (by decide) (by decide) (by decide) h₁ w₁ h₂ w₂
+  · exact mask_short_other toyOps kvW kvN cfg [104] _ p₃ _ (by decide) (by decide) h₃ w₃
+
+/-- no-panic theorems: both outcomes other than panic occur – a successful write, and a write that
+fails (no key) without panicking -/
+example : (∃ s, maskWrite toyOps ⟨none, none, some [1,2,3], none⟩ ⟨[42], 1, true, .block⟩ [7,9,9] (List.replicate 56 5) = .ok s) ∧
+    maskWrite toyOps ⟨none, none, none, none⟩ ⟨[42], 1, true, .block⟩ [7,9,9] (List.replicate 56 5) = .err := by
+  constructor
+  · obtain ⟨p, hp⟩ := protect_block_total toyOps toy_sealLaws ⟨none, none, some [1,2,3], none⟩ [1,2,3] [9,9] (List.replicate 56 5)
+      rfl (by decide) (by decide) (by decide) (by decide)
+    refine ⟨[7] ++ p, ?_⟩
+    rw [maskWrite_eq _ _ _ _ _ (by decide)]
+    have : hiddenPart ⟨[42], 1, true, .block⟩ [7,9,9] = [9,9] := by decide
+    rw [this, hp]; rfl
+  · decide
 
 end AcraModel.Props.C11
